@@ -12,7 +12,7 @@ CONSTANTS
   Depth = 5
   RootP = {"new"}
   MixinP = {"props"}
-  DerivedP = {"props", "bare"}
+  DerivedP = {"props", "bare", "none"}
   DerivedC = {"method"}
   DerivedM = {}
   MaxOverrides = 1
